@@ -129,6 +129,9 @@ Proof.
 Qed.
 
 (* ---------- integers *)
+Lemma pow2_vals : pow2 4 = 16 /\ pow2 5 = 32 /\ pow2 6 = 64 /\ pow2 7 = 128 /\ pow2 28 = 268435456 /\ pow2 32 = 4294967296.
+Proof. repeat split; vm_compute; reflexivity. Qed.
+Ltac pw := destruct pow2_vals as (P4 & P5 & P6 & P7 & P28 & P32); rewrite ?P4, ?P5, ?P6, ?P7, ?P28, ?P32 in *.
 Lemma pow2_pos n : 0 < pow2 n. Proof. unfold pow2. apply N.neq_0_lt_0. apply N.pow_nonzero. discriminate. Qed.
 
 Lemma enc_int_rest_S f v : enc_int_rest (S f) v = if v <? 128 then [v] else (v mod 128 + 128) :: enc_int_rest f (v / 128).
@@ -226,19 +229,19 @@ Proof.
     remember (enc_int 7 hi (N.of_nat (length payload)) ++ payload ++ rest) as l eqn:El.
     destruct l as [|b l']; [rewrite He in El; discriminate|].
     assert (b = b0) by (rewrite He in El; cbn in El; congruence). subst b.
-    rewrite El. rewrite (int_roundtrip_all 7 hi (N.of_nat (length payload)) (payload ++ rest)) by (destruct Hhi; subst; try lia; try reflexivity; unfold pow2; cbn; lia).
+    rewrite El. rewrite (int_roundtrip_all 7 hi (N.of_nat (length payload)) (payload ++ rest)) by (destruct Hhi; subst; try lia; try reflexivity; pw; lia).
     assert ((N.of_nat (length (payload ++ rest)) <? N.of_nat (length payload)) = false) as -> by (rewrite app_length; lia).
     rewrite Nat2N.id. assert ((length (payload ++ rest) <? length payload)%nat = false) as -> by (apply Nat.ltb_ge; rewrite app_length; lia).
     rewrite firstn_app, Nat.sub_diag, firstn_all, firstn_O, app_nil_r.
     rewrite skipn_app, Nat.sub_diag, skipn_all. cbn [app].
-    unfold pow2 in Hb0. cbn in Hb0. destruct Hhi; subst hi.
+    assert (Hb0' : hi <= b0 < hi + 128) by (pw; exact Hb0). clear Hb0. destruct Hhi; subst hi.
     - assert ((128 <=? b0) = false) as -> by lia. reflexivity.
     - assert ((128 <=? b0) = true) as -> by lia. reflexivity. }
   destruct h.
   - rewrite <- app_assoc. rewrite Hgen; [|right; reflexivity|].
     + change (128 <=? 128) with true. cbv iota. rewrite huffman_roundtrip_all by exact Hs. reflexivity.
-    + pose proof (huff_encode_length s). unfold pow2 in *. cbn in *. lia.
-  - rewrite <- app_assoc. rewrite Hgen; [reflexivity|left; reflexivity|unfold pow2 in *; cbn in *; lia].
+    + pose proof (huff_encode_length s) as Hel. clear Hgen. pw. lia.
+  - rewrite <- app_assoc. rewrite Hgen; [reflexivity|left; reflexivity|clear Hgen; pw; lia].
 Qed.
 
 (* ---------- a whole header block: decoding what any legal choice of representations encodes gives back the
@@ -380,8 +383,8 @@ Proof.
     destruct (enc_int_head 5 32 n ltac:(lia)) as (b0 & tl & Hh & Hb0).
     rewrite <- app_assoc. change (S fu + S (length more))%nat with (S (fu + S (length more))).
     rewrite (dec_block_head true (fu + S (length more)) t (enc_int 5 32 n ++ b2 ++ more) true b0 (tl ++ b2 ++ more)) by (rewrite Hh; reflexivity).
-    unfold pow2 in Hb0. cbn in Hb0. assert ((128 <=? b0) = false) as -> by lia. assert ((64 <=? b0) = false) as -> by lia. assert ((32 <=? b0) = true) as -> by lia.
-    cbn [orb]. rewrite int_roundtrip_all by (try lia; try reflexivity; unfold pow2; cbn; lia). rewrite Et. apply Heq. reflexivity.
+    assert (Hb0' : 32 <= b0 < 64) by (pw; exact Hb0). assert ((128 <=? b0) = false) as -> by lia. assert ((64 <=? b0) = false) as -> by lia. assert ((32 <=? b0) = true) as -> by lia.
+    cbn [orb]. rewrite int_roundtrip_all by (try lia; try reflexivity; unfold pow2; cbn; lia). rewrite Et. exact (Heq more eq_refl).
 Qed.
 
 Theorem decode_encode_block_all t resizes fs rs b t' :
@@ -397,7 +400,7 @@ Proof.
     rewrite app_length. pose proof (enc_int_nonempty 5 32 n). specialize (IH _ _ _ Er). cbn [length]. lia. }
   destruct (dec_block_resizes resizes t b1 t1 E1 Hn (length b1) b2 Hlen) as (fuel' & Hf' & Heq).
   replace (S (length (b1 ++ b2))) with (length b1 + S (length b2))%nat by (rewrite app_length; lia).
-  rewrite (Heq b2 eq_refl). apply decode_encode_fields; try assumption. pose proof (enc_fields_length _ _ _ _ _ E2). lia.
+  rewrite (Heq b2 eq_refl). apply (decode_encode_fields true fs rs t1 b2 t' E2 Hf Hr). pose proof (enc_fields_length _ _ _ _ _ E2). lia.
 Qed.
 
 (* ---------- a whole connection: any number of blocks, one shared table on each side *)
@@ -428,7 +431,7 @@ Proof.
   - cbn in He. inversion He; subst. reflexivity.
   - cbn [encode_conn] in He. destruct (encode_block t rz fs rs) as [[b t1]|] eqn:Eb; [|discriminate].
     destruct (encode_conn t1 r) as [[bl2 t2]|] eqn:Er; [|discriminate]. inversion He; subst. clear He.
-    inversion Hok as [|? ? (H1 & H2 & H3) Hr]; subst.
+    inversion Hok as [|? ? Hb Hr]; subst. cbn [block_ok] in Hb. destruct Hb as (H1 & H2 & H3).
     cbn [decode_conn map fst snd]. rewrite (decode_encode_block_all t rz fs rs b t1 Eb H1 H2 H3).
     rewrite (IH t1 bl2 t' Er Hr). reflexivity.
 Qed.
